@@ -41,7 +41,7 @@ func ruleR079(c *Ctx) {
 	// flag stores: l.F = true in methods of List (also inside literals of the method)
 	type flagStore struct {
 		fd    *ast.FuncDecl
-		stmt  *ast.AssignStmt
+		stmt  ast.Node // the assignment, or the call statement of a helper that stores
 		field *types.Var
 		inLit bool
 	}
@@ -70,7 +70,7 @@ func ruleR079(c *Ctx) {
 						continue
 					}
 					if tv := info.Types[as.Rhs[i]]; tv.Value != nil && tv.Value.Kind() == constant.Bool && constant.BoolVal(tv.Value) {
-						stores = append(stores, flagStore{fd, as, v, c.EnclosingFunc(as) != ast.Node(fd)})
+						stores = append(stores, flagStore{fd, ast.Node(as), v, c.EnclosingFunc(as) != ast.Node(fd)})
 					}
 				}
 				return true
@@ -98,7 +98,14 @@ func ruleR079(c *Ctx) {
 					all = false
 					return true
 				}
-				sel, ok := ast.Unparen(r.Results[len(r.Results)-1]).(*ast.SelectorExpr)
+				last := ast.Unparen(r.Results[len(r.Results)-1])
+				// a local copy taken from the flag: items, present := l.items, l.itemsPresent
+				if id, ok := last.(*ast.Ident); ok {
+					if as, i := definingAssign(info, fd, info.ObjectOf(id)); as != nil && len(as.Rhs) == len(as.Lhs) && countAssignments(info, fd, info.ObjectOf(id)) == 1 {
+						last = ast.Unparen(as.Rhs[i])
+					}
+				}
+				sel, ok := last.(*ast.SelectorExpr)
 				if !ok || info.ObjectOf(sel.Sel) != flag {
 					all = false
 				}
@@ -106,6 +113,90 @@ func ruleR079(c *Ctx) {
 			return true
 		})
 		return n > 0 && all
+	}
+	establishesIn := func(fd *ast.FuncDecl, flag *types.Var, cond ast.Expr, val bool) bool {
+		var gs []Guard
+		expandGuard(cond, val, &gs)
+		for _, gd := range gs {
+			if !gd.Val {
+				continue
+			}
+			switch t := ast.Unparen(gd.Cond).(type) {
+			case *ast.SelectorExpr:
+				if info.ObjectOf(t.Sel) == flag {
+					return true
+				}
+			case *ast.Ident:
+				// _, ok := l.getItems()
+				obj := info.ObjectOf(t)
+				if as, i := definingAssign(info, fd, obj); as != nil && len(as.Rhs) == 1 && i == len(as.Lhs)-1 && countAssignments(info, fd, obj) == 1 {
+					if call, ok := ast.Unparen(as.Rhs[0]).(*ast.CallExpr); ok && accessor(Callee(info, call), flag) {
+						return true
+					}
+				}
+			}
+		}
+		return false
+	}
+	// a method without an error result that stores the flag is a helper of the materialising method (storeItems): if it
+	// leaves the flag set on every path, its call statements are the stores of its callers
+	hasErrorResult := func(fd *ast.FuncDecl) bool {
+		if fd.Type.Results == nil {
+			return false
+		}
+		for _, f := range fd.Type.Results.List {
+			if isErrorType(info.TypeOf(f.Type)) {
+				return true
+			}
+		}
+		return false
+	}
+	{
+		var expanded []flagStore
+		for _, st := range stores {
+			if hasErrorResult(st.fd) || st.inLit {
+				expanded = append(expanded, st)
+				continue
+			}
+			h := st.fd
+			hobj, _ := info.Defs[h.Name].(*types.Func)
+			g := c.CFG(h)
+			if hobj == nil || g == nil {
+				expanded = append(expanded, st)
+				continue
+			}
+			leaves, _ := g.PathAvoidingEdges(nil, func(n ast.Node) bool { return n == st.stmt }, func(cond ast.Expr, val bool) bool { return !establishesIn(h, st.field, cond, val) })
+			if leaves {
+				expanded = append(expanded, st)
+				continue
+			}
+			nCallers := 0
+			for _, f := range vp.Syntax {
+				for _, d := range f.Decls {
+					cfd, ok := d.(*ast.FuncDecl)
+					if !ok || cfd.Body == nil || !isListRecv(cfd) || cfd == h {
+						continue
+					}
+					ast.Inspect(cfd.Body, func(x ast.Node) bool {
+						es, ok := x.(*ast.ExprStmt)
+						if !ok {
+							return true
+						}
+						if call, ok := ast.Unparen(es.X).(*ast.CallExpr); ok {
+							if cal := Callee(info, call); cal != nil && cal.Origin() == hobj.Origin() {
+								nCallers++
+								expanded = append(expanded, flagStore{cfd, es, st.field, c.EnclosingFunc(es) != ast.Node(cfd)})
+							}
+						}
+						return true
+					})
+				}
+			}
+			if nCallers == 0 {
+				expanded = append(expanded, st)
+			}
+		}
+		stores = expanded
 	}
 	seen := map[*ast.FuncDecl]bool{}
 	for _, st := range stores {
@@ -129,14 +220,15 @@ func ruleR079(c *Ctx) {
 		}
 		isStore := func(n ast.Node) bool {
 			for _, s2 := range mine {
-				if !s2.inLit && n == ast.Node(s2.stmt) {
+				if !s2.inLit && n == s2.stmt {
 					return true
 				}
 			}
 			return false
 		}
 		// does a branch outcome establish "the flag is set"?
-		establishes := func(cond ast.Expr, val bool) bool {
+		establishes := func(cond ast.Expr, val bool) bool { return establishesIn(fd, flag, cond, val) }
+		_ = func(cond ast.Expr, val bool) bool {
 			var gs []Guard
 			expandGuard(cond, val, &gs)
 			for _, gd := range gs {
@@ -260,7 +352,7 @@ func ruleR079(c *Ctx) {
 					return true
 				}
 			}
-			isTarget := func(n ast.Node) bool { return n == ast.Node(s2.stmt) }
+			isTarget := func(n ast.Node) bool { return n == s2.stmt }
 			inspectNoLit(fd.Body, func(x ast.Node) bool {
 				switch t := x.(type) {
 				case *ast.RangeStmt:
